@@ -150,6 +150,43 @@ CLAIMED.update({
             "DESIGN.md section 4, C15"),
 })
 
+CLAIMED.update({
+    "C07": ("engine-directed complete case split (symx; z3 for feasibility) over metadata set/unset/compatible/"
+            "incompatible choices through the real info-exchange code",
+            "For producer x one or two consumers over grid (unset, three layouts of one geometry, another geometry, NoGrid) x "
+            "mask (FLEX, NONE, nomask, all-false, two fixed masks per layout), and units (unset, m, km, s) x time x extra "
+            "metadata, plus ValueToGrid/GridToValue/SumOverTime(per_time): the link is accepted iff the statement's rule says "
+            "compatible, FinamMetaDataError otherwise; after success no unset field, consumer-set values kept, unset ones "
+            "taken from the other side, masks in the input grid's layout, and pushed data arrives as agreed. Structural "
+            "property: exhaustive enumeration of a finite catalogue, not a symbolic-arithmetic claim.",
+            "DESIGN.md section 4, C07"),
+    "C17": ("inductive step over the unit-pair memo and for-all-values conversion check by symbolic execution (symx + z3), "
+            "pint as trusted oracle for dimension/factor/offset",
+            "For every ordered pair of a 34-string catalogue (13 in the quick tier): from every invariant-satisfying "
+            "pre-state of the memo out of {empty, pair cached, reversed pair cached, both, catalogue slice cached}, every "
+            "sequence of 2-3 compatible/equivalent queries in both directions returns the fresh dimensional-analysis answer "
+            "and preserves the invariant (history independence by induction); with symbolic real magnitudes, to_units / "
+            "prepare / the Output->Input link relabel iff equivalent, compute a·v+b with pint's (a,b) otherwise, and refuse "
+            "iff the dimensions differ. Not claimed: that pint assigns the right dimension/factor to each unit string.",
+            "DESIGN.md section 4, C17"),
+    "C18": ("solver-directed exhaustive split over masks with symbolic (uninterpreted) values through the real compress/"
+            "expand/prepare code, and over mask specification x layout pairs through the real connect-time mask rule",
+            "For every shape listed (up to 8 elements quick / 12 thorough, 1-3 dimensions), both orders, all masks and plain/"
+            "masked/quantified inputs: compressed length and order, values back at their positions (z3 term equality), mask "
+            "restored; prepare applies exactly the info mask for all 64 masks of a 2x3 grid and three payload forms; the "
+            "connect rule (flexible accepts any, unmasked only unmasked, fixed only physically equal masks) for 9x9 mask "
+            "specifications x all layouts on both sides x consumer grid set/unset.",
+            "DESIGN.md section 4, C18"),
+    "C19": ("symbolic execution of the real dead-link check with free symbolic needs_push/needs_pull flags (symx + z3) "
+            "and an engine-directed case split over real topologies through Composition.connect",
+            "For chains of 0-4 adapter stubs z3 proves raised ⇔ 'a pull-only element precedes a push-needing one' for ALL "
+            "flag assignments (transferred to the 15 real slot/adapter classes by reading their flags); for every real "
+            "topology out of source kind x sink kind x adapter chain (<=3) x fan-out position x missing component x dangling "
+            "input: FinamConnectError iff the statement's rule says unworkable, nothing pushed or pulled before the "
+            "rejection, and metadata['links'] equals the created links on success.",
+            "DESIGN.md section 4, C19"),
+})
+
 PENDING = {}
 
 NOT_APPLICABLE = {
